@@ -40,8 +40,11 @@ func isBatchWrite(c *ssa.CallCommon) bool {
 
 func checkC14(c *Ctx) {
 	l := c.L
+	checkFailedWriteRetainsBatch(c)
+	checkMemoAfterIteratorVerdict(c, "ORDER-memo-after-verdict")
 	checkVersionProbeRemoved(c, "PASS-version-probe-removed")
 	checkRootRecordEmpty(c, "TABLE-root-record")
+	checkInitialVersionConsumed(c, "ORDER-initial-version-consumed")
 	c.rule("DOM-overwrite-check", "overwrite check dominates every write of SaveVersion", 4)
 	c.rule("ORDER-load-after-checks", "LoadVersion mutates the tree only after its checks", 2)
 	c.rule("FLOW-commit-number", "the committed number is WorkingVersion()", 6)
@@ -691,4 +694,73 @@ func checkRootRecordEmpty(c *Ctx, rule string) {
 		pos = l.ipos(bad)
 	}
 	c.decide(rule, "GetRoot: other forms only for a non-empty record", pos, okUses, "reference test and key extraction are behind the non-empty edge", "the stored root record is inspected as a reference / node before it was found non-empty")
+}
+
+// checkInitialVersionConsumed (shared by C14, C17): the configured initial
+// version numbers the FIRST commit; the one-shot flag that says it is still
+// to be used may be cleared only once that commit is known to have succeeded
+// (after Commit() == nil, or on the idempotent re-save edge).  Cleared
+// earlier, a first commit that fails on a storage write is retried as
+// version 1.
+func checkInitialVersionConsumed(c *Ctx, rule string) {
+	l := c.L
+	c.rule(rule, "the initial-version flag is cleared only by a commit that succeeded", 1)
+	sv := l.Func("", "*MutableTree.SaveVersion")
+	commitF := l.Func("", "*nodeDB.Commit")
+	fInit := l.Field("", "MutableTree", "initialVersionSet")
+	fVer := l.Field("", "ImmutableTree", "version")
+	if sv == nil || commitF == nil || fInit == nil || fVer == nil {
+		c.anchorMissing(rule, "SaveVersion / nodeDB.Commit / MutableTree.initialVersionSet")
+		return
+	}
+	n := 0
+	// a site is fine after a successful physical commit, or next to / after the assignment of the tree's version
+	// (the idempotent re-save edge assigns it only once the stored root was found identical)
+	var siteOK func(fn *ssa.Function, at ssa.Instruction, depth int) bool
+	siteOK = func(fn *ssa.Function, at ssa.Instruction, depth int) bool {
+		for _, in := range callsIn(fn, predStatic(commitF)) {
+			if cl, isCall := in.(*ssa.Call); isCall && okEdgeDominates(cl, at) {
+				return true
+			}
+		}
+		for _, vs := range storesToField(fn, fVer) {
+			if vs.Block() == at.Block() || vs.Block().Dominates(at.Block()) {
+				return true
+			}
+		}
+		if depth >= 2 {
+			return false
+		}
+		// a helper: every call site must be fine
+		edges := l.callersOf(fn)
+		if len(edges) == 0 {
+			return false
+		}
+		for _, e := range edges {
+			if e.Site == nil || e.Caller.Func == nil || !siteOK(e.Caller.Func, e.Site, depth+1) {
+				return false
+			}
+		}
+		return true
+	}
+	for _, fn := range l.SrcFuncs {
+		if l.pkgPathOf(fn) != l.ModPath {
+			continue
+		}
+		for _, st := range storesToField(fn, fInit) {
+			if _, isAl := stripTrivial(st.Addr.(*ssa.FieldAddr).X).(*ssa.Alloc); isAl {
+				continue // constructor literal
+			}
+			k, isC := stripTrivial(st.Val).(*ssa.Const)
+			if !isC || k.Value == nil || k.Value.String() != "false" {
+				continue // setting the flag (SetInitialVersion) is not a consumption
+			}
+			n++
+			c.decide(rule, l.fname(fn)+" clears initialVersionSet", l.ipos(st), siteOK(fn, st, 0), "after Commit() == nil, or with the assignment of the version on the idempotent re-save edge",
+				"the initial-version flag is cleared before the commit is known to have succeeded: when the first commit of a tree with a configured initial version fails on a storage write, the retry is numbered 1 instead of the initial version (and the working hash computed meanwhile uses version 1)")
+		}
+	}
+	if n == 0 {
+		c.anchorMissing(rule, "no consumption of initialVersionSet found")
+	}
 }
